@@ -40,6 +40,7 @@ MonInit(P) ==
    errsExp |-> 0, errSeen |-> FALSE,
    prevRoots |-> {}, clean |-> FALSE, sessOk |-> TRUE,
    aborted |-> FALSE, everFault |-> FALSE, sessBU |-> FALSE,
+   k1risk |-> FALSE,                        \* a bottom-up build of this session started while tasks were stale after a top-down build (K1)
    changed |-> {}, reported |-> {}, buOk |-> FALSE,   \* C03 domain bookkeeping
    staleTD |-> {},
    lastEv |-> "", lastT |-> 0, lastO |-> NONE, lastReqEnd |-> [t |-> 0, o |-> NONE],
@@ -79,10 +80,16 @@ FirstOcc(s, seen) ==
           ELSE <<key>> \o FirstOcc(Tail(s), seen \cup {key})
 IsPrefixOf(a, b) == Len(a) <= Len(b) /\ SubSeq(b, 1, Len(a)) = a
 
-\* canonical record of a performed dependency list: per target, kind/checker/stamp of the access the store keeps
-\* (first read/write access; last require); with one checker per target all accesses agree.
-CanonSet(perf) ==
-  {[k |-> d.k, x |-> d.x, c |-> d.c, s |-> d.s] : d \in Range(perf)}
+\* what the store keeps of a performed dependency list: per resource target the FIRST access (DAG::add_edge keeps the data
+\* of the first insertion), per task target the LAST require (update_require_dependency overwrites).  With one checker per
+\* target (and, for a generated resource, reads only after requiring the writer) all accesses to a target agree.
+KeptIdx(perf) ==
+  {i \in DOMAIN perf :
+     IF IsTaskDep(perf[i]) THEN \A j \in DOMAIN perf : (j > i /\ IsTaskDep(perf[j])) => perf[j].x # perf[i].x
+     ELSE \A j \in DOMAIN perf : (j < i /\ IsResDep(perf[j])) => perf[j].x # perf[i].x}
+CanonSet(perf) == {[k |-> perf[i].k, x |-> perf[i].x, c |-> perf[i].c, s |-> perf[i].s] : i \in KeptIdx(perf)}
+\* every observation the task made is protected by the record
+Complete(perf, rec) == \A i \in DOMAIN perf : [k |-> perf[i].k, x |-> perf[i].x, c |-> perf[i].c, s |-> perf[i].s] \in rec
 TwoCheckers(perf) ==
   \E i, j \in DOMAIN perf : i < j /\ IsTaskDep(perf[i]) = IsTaskDep(perf[j]) /\ perf[i].x = perf[j].x
                             /\ (perf[i].c # perf[j].c \/ perf[i].k # perf[j].k)
@@ -148,7 +155,7 @@ Nest(m, e) ==
 OnSessStart(P, m, st, e) ==
   R([m EXCEPT !.sessN = @ + 1, !.inSess = TRUE, !.probe = e.probe, !.res0 = st.res, !.roots = <<>>,
               !.execd = [t \in 1..P.nt |-> 0], !.validated = {}, !.build = "none", !.vstk = <<>>, !.nstk = <<>>,
-              !.errsExp = 0, !.errSeen = FALSE, !.sessOk = TRUE, !.pend = NoPend, !.exp = NoExp, !.sessBU = FALSE], {})
+              !.errsExp = 0, !.errSeen = FALSE, !.sessOk = TRUE, !.pend = NoPend, !.exp = NoExp, !.sessBU = FALSE, !.k1risk = FALSE], {})
 
 OnRootCall(P, m, st, e) ==
   R([m EXCEPT !.curRoot = e.t, !.build = "td", !.bexecd = {}], {})
@@ -166,12 +173,16 @@ OutputFormula(P, m, st, e, roots2) ==
 OnRootRet(P, m, st, e) ==
   LET roots2 == Append(m.roots, e.t)
       own == Own(P, m, "C01")
-      v == OutputFormula(P, m, st, e, roots2)
+      vo == OutputFormula(P, m, st, e, roots2)
+      \* K1: tasks left stale by a top-down build are not repaired by the bottom-up build of this session
+      k1 == m.k1risk /\ vo # {}
+      v == (IF k1 THEN {} ELSE vo)
            \cup V(m.nstk = <<>>, <<"C17", "unclosed_at_return">>)
            \cup V(m.lastReqEnd = [t |-> e.t, o |-> e.o], <<"C17", "require_end_value">>)
            \cup ClosureViol(st)
       m1 == Bump(Bump([m EXCEPT !.roots = roots2, !.build = "none", !.vstk = <<>>], own), "C17")
-  IN R(IF m.execd # [t \in 1..P.nt |-> 0] \/ m.sessN > 1 THEN Bump(m1, "C02") ELSE m1, v)
+  IN RK(IF m.execd # [t \in 1..P.nt |-> 0] \/ m.sessN > 1 THEN Bump(m1, "C02") ELSE m1, v,
+        IF k1 /\ own # "" THEN {<<own, "K1_stale_requirer_after_top_down">>} ELSE {})
 
 \* the edge that triggers a diagnosis belongs to a task not validated in this session (role-inversion findings)
 StaleTrigger(m, st) == m.exp.kf
@@ -207,7 +218,8 @@ OnPanic(P, m, st, e) ==
   IN RK(m2, vExp \cup v20 \cup v063 \cup vBug, k20)
 
 OnBuBegin(P, m, st, e) ==
-  R([m EXCEPT !.build = "bu", !.bexecd = {}, !.reported = {}, !.buOk = FALSE, !.vstk = <<>>, !.sessBU = TRUE], {})
+  R([m EXCEPT !.build = "bu", !.bexecd = {}, !.reported = {}, !.buOk = FALSE, !.vstk = <<>>, !.sessBU = TRUE,
+              !.k1risk = @ \/ m.staleTD # {}], {})
 OnBuSched(P, m, st, e) == R([m EXCEPT !.reported = @ \cup {e.r}], {})
 OnBuRet(P, m, st, e) ==
   LET complete == m.changed \subseteq m.reported
@@ -347,6 +359,7 @@ OnCheckTaskStart(P, m, st, e) ==
       d == [k |-> "rq", x |-> e.t, c |-> e.c, s |-> e.s]
       key == <<TRUE, e.t>>
       v == V(f.t # 0 /\ DepRecorded(st, f.t, d), <<"C08", "validated_dependency_not_recorded">>)
+           \cup V(f.t # 0 /\ DepRecorded(st, f.t, d), <<"C09", "check_not_on_recorded_checker_and_stamp">>)
            \cup V(~f.bad, <<Own(P, m, "C02"), "continued_after_inconsistent">>)
            \cup (IF f.t = 0 THEN {} ELSE V(ValidationOrder(P, m, st, f, key), <<Own(P, m, "C02"), "validation_order">>))
       m1 == SetTop(m, [f EXCEPT !.seq = Append(@, key)])
@@ -370,7 +383,7 @@ OnCheckResStart(P, m, st, e) ==
       key == <<FALSE, e.r>>
       rec == f.t # 0 /\ f.t \in Tasks(st)
              /\ \E d \in Range(st.deps[f.t]) : IsResDep(d) /\ d.x = e.r /\ d.c = e.c /\ d.s = e.s
-      v == V(rec, <<"C08", "validated_dependency_not_recorded">>)
+      v == V(rec, <<"C08", "validated_dependency_not_recorded">>) \cup V(rec, <<"C09", "check_not_on_recorded_checker_and_stamp">>)
            \cup V(~f.bad, <<Own(P, m, "C02"), "continued_after_inconsistent">>)
            \cup (IF f.t = 0 THEN {} ELSE V(ValidationOrder(P, m, st, f, key), <<Own(P, m, "C02"), "validation_order">>))
   IN R(SetTop(m, [f EXCEPT !.seq = Append(@, key)]), v)
@@ -450,7 +463,7 @@ OnOp(P, m, st, e) ==
       prev == IF okT THEN m.curop[cur] ELSE [k |-> "", x |-> 0, c |-> "", f |-> 0, acc |-> 0]
       \* the value handed to the requirer is the one announced by require_end (as far as its checker observes)
       vReq == IF okT /\ prev.k = "rq" /\ m.lastEv = "require_end" /\ m.lastReqEnd.t = prev.x
-              THEN V(e.acc = Mix(prev.acc, OStamp(prev.c, m.lastReqEnd.o), P.na), <<"C17", "require_end_value">>) ELSE {}
+              THEN V(e.acc = Mix(prev.acc, OObs(prev.c, m.lastReqEnd.o), P.na), <<"C17", "require_end_value">>) ELSE {}
       m1 == IF okT
             THEN [m0 EXCEPT !.curop[cur] = [k |-> op.k, x |-> op.x, c |-> op.c, f |-> op.f, acc |-> e.acc],
                             !.perf[cur] = @ \o PerfEntry(P, m0, st, cur, op, e.acc)]
@@ -471,8 +484,9 @@ OnExecEnd(P, m, st, st2, e) ==
               <<"C17", "execute_end_output">>)
       \* C08: the record held after the execution is exactly what the task performed
       exact == t \in Tasks(st2) /\ Range(st2.deps[t]) = CanonSet(m.perf[t])
-      v08 == IF exact \/ t \in m.twochk THEN {} ELSE {<<"C08", "record_differs_from_performed">>}
-      k08 == IF ~exact /\ t \in m.twochk THEN {<<"C08", "K2_two_checkers_one_target">>} ELSE {}
+      complete == t \in Tasks(st2) /\ Complete(m.perf[t], Range(st2.deps[t]))
+      v08 == IF exact THEN {} ELSE {<<"C08", "record_differs_from_performed">>}
+      k08 == IF exact /\ ~complete /\ t \in m.twochk THEN {<<"C08", "K2_two_checkers_one_target">>} ELSE {}
       anc == IF t \in Tasks(st2) THEN Ancestors(st2, t) ELSE {}
       m1 == [m EXCEPT !.validated = @ \cup {t},
                       !.staleTD = IF m.build = "td" THEN (@ \cup anc) \ {t} ELSE @ \ {t}]
@@ -484,7 +498,7 @@ OnChkReadStart(P, m, st, e) ==
       r == IF top[1] = "sched_by_res_start" THEN top[2] ELSE 0
       rec == r \in Ress(st) /\ e.t \in Tasks(st)
              /\ \E d \in Range(st.deps[e.t]) : IsResDep(d) /\ d.x = r /\ d.c = e.c /\ d.s = e.s
-  IN R(m, V(rec, <<"C08", "scheduled_by_unrecorded_dependency">>))
+  IN R(m, V(rec, <<"C08", "scheduled_by_unrecorded_dependency">>) \cup V(rec, <<"C09", "check_not_on_recorded_checker_and_stamp">>))
 
 OnChkReadEnd(P, m, st, e) ==
   LET top == TopN(m)
@@ -500,7 +514,8 @@ OnChkReqStart(P, m, st, e) ==
   LET top == Encl(m)
       u == IF top[1] = "sched_by_task_start" THEN top[2] ELSE 0
       d == [k |-> "rq", x |-> u, c |-> e.c, s |-> e.s]
-  IN R(m, V(u # 0 /\ DepRecorded(st, e.t, d), <<"C08", "scheduled_by_unrecorded_dependency">>))
+  IN R(m, V(u # 0 /\ DepRecorded(st, e.t, d), <<"C08", "scheduled_by_unrecorded_dependency">>)
+          \cup V(u # 0 /\ DepRecorded(st, e.t, d), <<"C09", "check_not_on_recorded_checker_and_stamp">>))
 
 OnChkReqEnd(P, m, st, e) ==
   LET top == TopN(m)
@@ -557,10 +572,11 @@ OnSessEnd(P, m, st, e) ==
       vTrk == V(e.trk_same, <<"C17", "composite_children_differ">>)
       dt == e.dump.tasks
       \* C08 against the real store: completed tasks hold exactly what they performed
-      bad08 == {i \in DOMAIN dt : dt[i].t \in 1..P.nt /\ dt[i].o # NONE /\ st.out[dt[i].t] # NONE
-                                  /\ DumpDeps(dt[i]) # CanonSet(m.perf[dt[i].t])}
-      v08 == IF \A i \in bad08 : dt[i].t \in m.twochk THEN {} ELSE {<<"C08", "store_differs_from_performed">>}
-      k08 == IF bad08 # {} /\ \A i \in bad08 : dt[i].t \in m.twochk THEN {<<"C08", "K2_two_checkers_one_target">>} ELSE {}
+      done == {i \in DOMAIN dt : dt[i].t \in 1..P.nt /\ dt[i].o # NONE /\ st.out[dt[i].t] # NONE}
+      bad08 == {i \in done : DumpDeps(dt[i]) # CanonSet(m.perf[dt[i].t])}
+      v08 == IF bad08 = {} THEN {} ELSE {<<"C08", "store_differs_from_performed">>}
+      k08 == IF \E i \in done \ bad08 : dt[i].t \in m.twochk /\ ~Complete(m.perf[dt[i].t], DumpDeps(dt[i]))
+             THEN {<<"C08", "K2_two_checkers_one_target">>} ELSE {}
       \* C06-2 on the real store
       wr == [r \in 1..P.nr |-> {i \in DOMAIN dt : \E d \in Range(dt[i].deps) : d.k = "wr" /\ d.x = r}]
       v06 == IF m.sessOk THEN V(\A r \in 1..P.nr : Cardinality(wr[r]) <= 1, <<"C06", "single_writer_store">>) ELSE {}
